@@ -23,7 +23,7 @@ def shards(tier):
 def floors(tier):
     return {"variants": 20000, "bases": 1500, "nop_in_index_position": 5000, "nop_after_branch_or_ring": 5000,
             "exhaustive_single_insertions": 3000, "padding_roundtrips": 1000, "bases_that_raise": 50, "M6.calls": 20000,
-            "nop_at_fragment_edge": 2000, "bases_with_empty_fragment": 100}
+            "nop_at_fragment_edge": 2000, "bases_with_empty_fragment": 100, "long_nop_runs": 50}
 
 
 def outcome(sf, x, **k):
@@ -70,6 +70,7 @@ def run(ctx):
         base = "".join(toks)
         r0 = outcome(sf, base)
         ra0 = outcome(sf, base, attribute=True)
+        rc0 = outcome(sf, base, compatible=True)
         ctx.count("bases")
         if r0[0] != "ok":
             ctx.count("bases_that_raise")
@@ -94,12 +95,16 @@ def run(ctx):
             r = outcome(sf, y)
             ctx.count("variants")
             ctx.case((base, y), has_br, sample={"base": base[:150], "variant": y[:200], "outcome": r[0]} if has_br and len(toks) > 6 else None)
-            payload = {"selfies": base, "variant": y, "table": table, "placement": tag}
+            payload = {"selfies": base, "variant": y if len(y) < 3000 else None, "table": table, "placement": tag,
+                       "nop_positions": ps if len(ps) < 50 else [ps[0], len(ps)]}
             if r != r0:
                 ctx.finding("nop-changes-decoder-outcome", payload, "%r -> %r" % (r0, r)[:600])
             ra = outcome(sf, y, attribute=True)
             if ra != ra0 or (ra[0] == "ok" and ra[1][0] != r0[1]):
                 ctx.finding("nop-changes-decoder-outcome-with-attribution", payload, "%r -> %r" % (ra0, ra)[:600])
+            rc = outcome(sf, y, compatible=True)
+            if rc != rc0:
+                ctx.finding("nop-changes-decoder-outcome-with-compatible", payload, "%r -> %r" % (rc0, rc)[:600])
 
         # forced placements
         idxpos, after = [], []
@@ -130,6 +135,12 @@ def run(ctx):
             for p in range(len(toks) + 1):
                 variant([p], "single@%d" % p)
                 ctx.count("exhaustive_single_insertions")
+        if i % 10 == 3:
+            # very long runs of padding (wide fixed-width fields, left padding)
+            p = rng.randrange(len(toks) + 1)
+            variant([p] * rng.choice([300, 1023, 1024, 1025, 2048, 5000]), "long-run@%d" % p)
+            variant([0] * rng.choice([1000, 1024, 4096]), "left-padding")
+            ctx.count("long_nop_runs", 2)
         # padding through the encoding utilities (their domain: single dots strictly between symbols)
         if ".." in base or base.startswith(".") or base.endswith("."):
             continue
